@@ -231,6 +231,13 @@ pub fn block(name: &str, c: &AlphaCtx, out: &mut Vec<Op>) {
             out.push(Op::k(OpK::IterMutWrite));
         }
         "fill" => out.push(Op::k(OpK::FillToCap)),
+        // one bulk call that adds thousands of keys (pre-allocation caps, budgets derived from size hints)
+        "bulkbig" => {
+            for n in [4097u64, 9000, 20_000] {
+                out.push(Op::arg(OpK::ExtendFresh, n));
+            }
+            out.push(Op::new(OpK::ExtendOverlap, c.next_key.saturating_sub(2), 9000));
+        }
         // PathBuf keys queried as &Path in several spellings, on a mirror of the current contents
         "borrow" => out.push(Op::k(OpK::BorrowProbe)),
         "iter" => {
